@@ -222,13 +222,13 @@ func (u *upgA) noSplit() {
 		var lastAppend *core.Event
 		for i := range p.Events {
 			ev := &p.Events[i]
-			if ev.Kind == core.EvCall && ev.Static == nil && ev.Method != nil && ev.Method.Name() == "Write" && ev.Depth == 0 {
+			if ev.Kind == core.EvCall && ev.Static == nil && ev.Method != nil && ev.Method.Name() == "Write" && own(ev) {
 				writes++
 				if lastAppend != nil && ev.Args[0] != lastAppend.Result && ev.Args[0].Kind != core.KAppend {
 					okS, whyS = false, "the buffer written is not the assembled response"
 				}
 			}
-			if ev.Kind != core.EvCall || ev.Builtin != "append" || len(ev.Args) != 2 || ev.Depth != 0 {
+			if ev.Kind != core.EvCall || ev.Builtin != "append" || len(ev.Args) != 2 || !own(ev) {
 				continue
 			}
 			lastAppend = ev
